@@ -4,7 +4,7 @@ From PV Require Import Base.Index Base.Perm Base.Sum Np.Array Model.Sparse Model
   Model.C01Unique Model.C01Coo Model.C01Ttm Model.C01W3 Proofs.C01Proofs Proofs.C01Kruskal Proofs.C01Tucker Proofs.C01Unique
   Proofs.C01Converse Proofs.C01Coo Proofs.C01Ttm Proofs.C01W3.
 From Coq Require Import Permutation.
-From PV Require Np.NpZ Np.NpZ2 Gen.GenUtils2 Proofs.C01GenBridge.
+From PV Require Np.NpZ Np.NpZ2 Gen.GenUtils Gen.GenUtils2 Proofs.NpZProofs Proofs.C01GenBridge.
 Import ListNotations.
 
 Section C01.
@@ -483,10 +483,33 @@ Theorem C01_gather_wrap_dims_generated : forall N rd cd cy,
     end.
 Proof. exact C01GenBridge.gather_wrap_dims_generated. Qed.
 
+(* ... and the per-side index computations of the sparse matricisation: the GENERATED tt_sub2ind applied to the row (side 0)
+   or column (side 1) subscripts of the stored entries yields exactly the row / column indices the model's to_sptenmat stores,
+   and the GENERATED tt_ind2sub applied to the stored row / column indices yields the per-side subscripts the model's
+   to_sptensor reassembles (the sides with no mode are separate branches of the code and of the model) *)
+Theorem C01_sparse_index_generated : forall V : Type,
+  (forall (S : sparse V) r c M side, is_perm (r ++ c) (length (sshape S)) ->
+     Forall (fun j => inb (sshape S) j = true) (ssubs S) -> to_sptenmat S r c = Some M ->
+     let q := nth side [r; c] [] in q <> [] -> side < 2 ->
+     PV.Gen.GenUtils.tt_sub2ind (NpZProofs.zs (pick 0 q (sshape S))) (NpZProofs.zm (map (pick 0 q) (ssubs S))) NpZ.OrdF
+       = NpZ.Ok (map (fun rc => Z.of_nat (nth side rc 0)) (stm_subs M))) /\
+  (forall (M : sptenmat V) side, Forall (fun rc => inb (stm_shape M) rc = true) (stm_subs M) -> side < 2 ->
+     let q := nth side [stm_r M; stm_c M] [] in
+     PV.Gen.GenUtils.tt_ind2sub (NpZProofs.zs (pick 0 q (stm_tshape M)))
+         (NpZProofs.zs (map (fun rc => nth side rc 0) (stm_subs M))) NpZ.OrdF
+       = NpZ.Ok (map (fun rc => NpZProofs.zs (ind2sub (pick 0 q (stm_tshape M)) (nth side rc 0))) (stm_subs M))).
+Proof. exact (fun V => conj (@C01GenBridge.to_sptenmat_side_generated V) (@C01GenBridge.sptenmat_back_side_generated V)). Qed.
+
 Print Assumptions C01_gather_wrap_dims_generated.
+Print Assumptions C01_sparse_index_generated.
 
 Example C01_example_generated :
   PV.Gen.GenUtils2.gather_wrap_dims 4%Z (Some [1%Z]) None (Some NpZ2.CycBC) = NpZ.Ok ([1%Z], [0; 3; 2]%Z) /\
   gather_wrap_dims 4 (Some [1]) None (Some CycBC) = Some ([1], [0; 3; 2]) /\
-  PV.Gen.GenUtils2.gather_wrap_dims 3%Z None (Some [2; 0]%Z) None = NpZ.Ok ([1%Z], [2; 0]%Z).
+  PV.Gen.GenUtils2.gather_wrap_dims 3%Z None (Some [2; 0]%Z) None = NpZ.Ok ([1%Z], [2; 0]%Z) /\
+  (* rows = modes [2; 0] of a 2x3x4 sparse tensor: the generated tt_sub2ind gives the stored row indices 7 and 0 *)
+  PV.Gen.GenUtils.tt_sub2ind [4; 2]%Z [[3; 1]; [0; 0]]%Z NpZ.OrdF = NpZ.Ok [7; 0]%Z /\
+  option_map (fun M => map (fun rc => nth 0 rc 0) (stm_subs M)) (to_sptenmat (mkSp [2; 3; 4] [[1; 2; 3]; [0; 1; 0]] [5; 7]%Z) [2; 0] [1])
+    = Some [7; 0] /\
+  PV.Gen.GenUtils.tt_ind2sub [4; 2]%Z [7; 0]%Z NpZ.OrdF = NpZ.Ok [[3; 1]; [0; 0]]%Z.
 Proof. repeat split; reflexivity. Qed.
